@@ -4,7 +4,7 @@ from __future__ import annotations
 import itertools
 import random
 
-from pv import net
+from pv import net, refwire
 from pv.vloop import Harness
 
 ID = "C07"
@@ -318,7 +318,12 @@ def run(spec, ctx):
                     noise = rng.random() < 0.08
                     ents = ()
                     if rng.random() < 0.3:
-                        ents = (net.offer(0x4000 + rng.randrange(4), 1, ttl=rng.choice((0, 3))),)
+                        # (a third of these carry an SD endpoint option that names another address or port than the datagram's
+                        #  source - a relayed or multi-homed peer: the reboot memory is kept per source address all the same)
+                        o1 = [refwire.ep4("10.0.0.99", rng.choice((30490, 40001)), typ=0x24)] if rng.random() < 0.35 else []
+                        ents = (net.offer(0x4000 + rng.randrange(4), 1, ttl=rng.choice((0, 3)), o1=o1),)
+                        if o1:
+                            ctx.count("messages_with_an_sd_endpoint_option_naming_another_address")
                     elif rng.random() < 0.1:
                         ents = (net.find(0x4000),)
                     hist.append((s, mc, flag, sid, noise))
